@@ -493,3 +493,29 @@ pub enum ResponseSender {
     Mutable(Sender<MutableItem>),
     Immutable(Sender<Box<[u8]>>),
 }
+
+#[cfg(mainline_verif)]
+impl Actor {
+    /// Plain-data description of everything this actor holds.
+    pub fn verif_snapshot(&self) -> crate::verif::ActorSnapshot {
+        crate::verif::ActorSnapshot {
+            put_senders: self
+                .put_senders
+                .iter()
+                .map(|(id, senders)| (*id, senders.len()))
+                .collect(),
+            get_senders: self
+                .get_senders
+                .iter()
+                .map(|(id, senders)| (*id, senders.len()))
+                .collect(),
+            socket: self.socket.verif_snapshot(),
+            core: self.core.verif_snapshot(),
+        }
+    }
+
+    /// The functional core of this actor.
+    pub fn verif_core(&self) -> &Core {
+        &self.core
+    }
+}
